@@ -43,6 +43,7 @@ type pipeCfg struct {
 	unstable    bool
 	maxGetURL   uint32
 	expand      int
+	decompCount *int
 }
 
 func clientProtocolOf(form int) Protocol {
@@ -978,7 +979,7 @@ func newPipe(cfg *pipeCfg) *pipeRun {
 	svc.addMethod(pipeMethod, cfg.kind, cfg.idem, cfg.hasIdem)
 	target, codec, _ := refNegotiate(cfg)
 	p.backend = &pipeBackend{target: target, unary: cfg.kind == fkUnary, codec: codec, bufSize: 16}
-	fc := &fakeConfig{protocols: cfg.svcProtos, codecs: cfg.svcCodecs, maxMsg: cfg.maxMsg, maxGetURL: cfg.maxGetURL, unstable: cfg.unstable, expand: cfg.expand}
+	fc := &fakeConfig{protocols: cfg.svcProtos, codecs: cfg.svcCodecs, maxMsg: cfg.maxMsg, maxGetURL: cfg.maxGetURL, unstable: cfg.unstable, expand: cfg.expand, decompCount: cfg.decompCount}
 	if cfg.svcComp {
 		fc.compressors = []string{CompressionGzip}
 	}
